@@ -647,6 +647,10 @@ mod lits {
     #[cfg(not(feature = "no-fragile-witnesses"))]
     #[derive(TS)]
     pub struct FM { pub k: i32, #[ts(flatten)] pub a: FD3, #[ts(flatten)] pub b: TO }
+    // arrays of every small length (std impl in ts-rs/src/lib.rs): a tuple of that many elements, `[]` for none
+    #[derive(TS)]
+    pub struct AR { pub a: [i32; 0], pub b: [i32; 2], pub c: [String; 1], pub d: Vec<[bool; 0]> }
+    #[cfg(not(feature = "no-fragile-witnesses"))]
     #[derive(TS)]
     pub struct FD2 {
         /// uses {{double}} braces and {0} verbatim
@@ -672,12 +676,13 @@ fn variant_literals() -> Value {
         ("internally tagged", lits::L3::inline(), "{ \"kind\": \"A\", x: number, } | { \"kind\": \"C\" }".to_string()),
         ("tagged struct", lits::L4::inline(), "{ \"kind\": \"L4\", x: number, }".to_string()),
         ("externally tagged", lits::L5::inline(), "{ \"A\": { x: number, } } | { \"B\": number } | \"C\"".to_string()),
-        ("field documentation is carried verbatim (braces are not format directives)", lits::FD2::inline(), "{ \n/**\n * uses {{double}} braces and {0} verbatim\n */\nx: number, \n/**\n * also {1} here\n */\nz: string, }".to_string()),
+        ("arrays are tuples of their length, the empty array included", lits::AR::inline(), "{ a: [], b: [number, number], c: [string], d: Array<[]>, }".to_string()),
         ("a type override that is an intersection of object types is carried verbatim", lits::TO::inline(), "{ f: { a: number } & { b: number }, g: number, }".to_string()),
         ("field documentation sits immediately before its property", lits::FD::inline(), "{ \n/**\n * Doc of x\n */\nx: number, y: number, \n/**\n * Doc of z\n */\nz: string, }".to_string()),
     ];
     #[cfg(not(feature = "no-fragile-witnesses"))]
     {
+        cases.push(("field documentation is carried verbatim (braces are not format directives)", lits::FD2::inline(), "{ \n/**\n * uses {{double}} braces and {0} verbatim\n */\nx: number, \n/**\n * also {1} here\n */\nz: string, }".to_string()));
         cases.push(("field documentation containing ` } & { ` is carried verbatim", lits::FD3::inline(), "{ \n/**\n * joins } & { two objects\n */\nx: number, y: number, }".to_string()));
         cases.push(("flattened object types are merged, the members themselves untouched", lits::FM::inline(), "{ k: number, \n/**\n * joins } & { two objects\n */\nx: number, y: number, f: { a: number } & { b: number }, g: number, }".to_string()));
     }
